@@ -144,6 +144,7 @@ def run(res, tier, seed, widen=1):
         res.count("own_" + own)
     # decode_message on P1 readout OBJECTS (genuine, and with line noise incl. non-ASCII octets) under every history
     import p1_common as P
+    from han import dlde
     from han.dlde import DataReadout
     mreqs, mmeta = [], []
     for n in range((120 if tier == "quick" else 3000) * widen):
@@ -179,6 +180,15 @@ def run(res, tier, seed, widen=1):
         # judged against the individual decoders: the P1 readout decoder is the only one that may accept a readout object's text
         if r is None and after != prev:
             res.prop_failure(case, f"result None but the remembered decoder changed from {prev} to {after}", "message_p1")
+        if r is None:
+            # None exactly when no individual decoder accepts: the P1 readout decoder, asked on its own
+            try:
+                own = dlde.decode_p1_readout(msg) if msg.payload else None
+            except Exception:  # noqa
+                own = None
+            if own is not None:
+                res.prop_failure(case, "result None although decode_p1_readout accepts this readout (is_valid "
+                                       f"{_safe_valid(msg)}): {D.render_dict(own)[:120]}", "message_p1")
         res.count("message_p1")
         res.nontriv(("msgP", prev, ro))
     # decode_message == decode_message_payload(payload) for HDLC frames and DLMS messages
@@ -193,11 +203,23 @@ def run(res, tier, seed, widen=1):
         f = HdlcFrameReader(False, False).read(b"\x7e" + frame + b"\x7e")
         if len(f) != 1:
             continue
-        for msg, kind, hx in ((f[0], "H", frame), (DlmsMessage(payload), "D", payload)):
+        variants = [(f[0], "H", frame, payload), (DlmsMessage(payload), "D", payload, payload)]
+        # the same for messages that are NOT valid but carry a payload: a frame whose check sequence is damaged (readers hand
+        # these out, is_valid False, information field intact) and DLMS messages of 1..4 octets (a DLMS message is valid from 5)
+        bad = bytearray(frame)
+        bad[-1 - rng.randrange(2)] ^= 1 << rng.randrange(8)
+        fb = HdlcFrameReader(False, False).read(b"\x7e" + bytes(bad) + b"\x7e")
+        if len(fb) == 1 and FLAG_FREE(bad):
+            variants.append((fb[0], "H", bytes(bad), payload))
+        short = rng.choice([payload[:4], payload[:rng.randrange(1, 5)], bytes.fromhex("02010600"), bytes.fromhex("0201060000")[: rng.randrange(3, 6)]])
+        variants.append((DlmsMessage(short), "D", short, short))
+        for msg, kind, hx, payload in variants:
             a1, a2 = AutoDecoder(), AutoDecoder()
             res.evaluations += 1
             case = {"op": "automsg", "kind": kind, "hex": hx.hex()}
             try:
+                if bytes(msg.payload or b"") != payload:
+                    continue
                 r1 = a1.decode_message(msg)
                 r2 = a2.decode_message_payload(payload)
                 names = (a1.previous_success_decoder, a2.previous_success_decoder)
@@ -214,6 +236,17 @@ def run(res, tier, seed, widen=1):
             res.tie_break(case, s1[:200], a[:200], "automsg")
         res.count("message_eq_payload")
     res.sample({"pool_size": len(pool), "history": [p.hex()[:60] for p in hist[len(hist) // 2][1]][:4]})
+
+
+def _safe_valid(msg):
+    try:
+        return bool(msg.is_valid)
+    except Exception as ex:  # noqa
+        return type(ex).__name__
+
+
+def FLAG_FREE(fr):
+    return 0x7E not in fr
 
 
 def search(res, tier, seed):
@@ -236,6 +269,31 @@ def replay(payload, res):
             ad = D.new_autodecoder(c["prev"])
             r = ad.decode_message(DataReadout(b) if c.get("kind") == "P" else DlmsMessage(b))
             print("result:", None if r is None else D.render_dict(r)[:300], "remembered:", D.remembered(ad))
+            if r is None and c.get("kind") == "P":
+                from han import dlde
+                try:
+                    own = dlde.decode_p1_readout(DataReadout(b)) if DataReadout(b).payload else None
+                except Exception:  # noqa
+                    own = None
+                if own is not None:
+                    print("decode_p1_readout on its own accepts:", D.render_dict(own)[:200])
+                    res.prop_failure(c, "result None although decode_p1_readout accepts this readout", "replay")
+        except Exception as ex:  # noqa
+            print("raised:", D.exc_name(ex))
+            res.prop_failure(c, f"{D.exc_name(ex)} raised", "replay")
+    elif c["op"] == "automsg":
+        from han.autodecoder import AutoDecoder
+        from han.common import DlmsMessage
+        from han.hdlc import HdlcFrameReader
+        b = bytes.fromhex(c["hex"])
+        msg = HdlcFrameReader(False, False).read(b"\x7e" + b + b"\x7e")[0] if c.get("kind") == "H" else DlmsMessage(b)
+        try:
+            r1 = AutoDecoder().decode_message(msg)
+            r2 = AutoDecoder().decode_message_payload(bytes(msg.payload))
+            s1, s2 = ("None" if r is None else D.render_dict(r) for r in (r1, r2))
+            print("is_valid:", _safe_valid(msg), "| decode_message:", s1[:200], "| decode_message_payload(payload):", s2[:200])
+            if s1 != s2:
+                res.prop_failure(c, "decode_message differs from decode_message_payload(payload)", "replay")
         except Exception as ex:  # noqa
             print("raised:", D.exc_name(ex))
             res.prop_failure(c, f"{D.exc_name(ex)} raised", "replay")
